@@ -327,11 +327,11 @@ theorem step_define (n : Name) (k : Kind) (d : Def) (s : Builder) (ht : d.tag = 
   rw [hname, hn]
   rfl
 
-/-- after the definition, an extension of the same kind is applied in place: the same `extend_ast`
-    that adopting it from the queue would have run -/
+/-- after the definition, an extension is handled in place exactly as adopting it from the queue would
+    have handled it: `extend_ast` for the definition's kind, the kind-mismatch diagnostic otherwise -/
 theorem step_ext_defined (n : Name) (k : Kind) (u : Builder) (ts : List TypeEntry) (t : TypeEntry) (e : Def)
     (hu : u.types = ts ++ [t]) (hts : findType ts n = none) (htn : t.name = n) (htk : t.kind = k)
-    (he : e.tag = .typeExt k) (hen : e.name = n) :
+    (k' : Kind) (he : e.tag = .typeExt k') (hen : e.name = n) :
     step u e = { u with types := ts ++ [(adoptStep k (t, u.errors) e).1], errors := (adoptStep k (t, u.errors) e).2 } := by
   unfold step
   rw [he]
@@ -343,31 +343,36 @@ theorem step_ext_defined (n : Name) (k : Kind) (u : Builder) (ts : List TypeEntr
     rw [List.find?_append, hts]
     simp [htn]
   rw [hfind]
-  simp only [htk, if_true, adoptStep, he]
-  have hset : setType u.types e.name (extendType t e u.errors).1 = ts ++ [(extendType t e u.errors).1] := by
-    rw [hu, hen]
-    unfold setType
-    rw [List.map_append]
-    congr 1
-    · unfold findType at hts
-      rw [List.find?_eq_none] at hts
-      have hm : List.map (fun t_1 => if (t_1.name == n) = true then (extendType t e u.errors).1 else t_1) ts
-          = List.map id ts := by
-        apply List.map_congr_left
-        intro y hy
-        have := hts y hy
-        simp only [id]
-        split
-        · rename_i h; exact absurd h this
-        · rfl
-      rw [hm, List.map_id]
-    · simp [htn]
-  rw [hset]
+  by_cases hk : k' = k
+  · subst hk
+    simp only [htk, if_true, adoptStep, he]
+    have hset : setType u.types e.name (extendType t e u.errors).1 = ts ++ [(extendType t e u.errors).1] := by
+      rw [hu, hen]
+      unfold setType
+      rw [List.map_append]
+      congr 1
+      · unfold findType at hts
+        rw [List.find?_eq_none] at hts
+        have hm : List.map (fun t_1 => if (t_1.name == n) = true then (extendType t e u.errors).1 else t_1) ts
+            = List.map id ts := by
+          apply List.map_congr_left
+          intro y hy
+          have := hts y hy
+          simp only [id]
+          split
+          · rename_i h; exact absurd h this
+          · rfl
+        rw [hm, List.map_id]
+      · simp [htn]
+    rw [hset]
+  · have hk2 : ¬ (k = k') := fun h => hk h.symm
+    have hk3 : ¬ (DefTag.typeExt k' = DefTag.typeExt k) := by intro h; injection h with h; exact hk h
+    simp only [if_false, adoptStep, he, hk3, push, kindOfExt, htk, ← hu, hk2]
 
 theorem addDocument_exts_defined (n : Name) (k : Kind) (ts : List TypeEntry) (hts : findType ts n = none) :
     ∀ (es : List Def) (u : Builder) (t : TypeEntry),
     u.types = ts ++ [t] → t.name = n → t.kind = k →
-    (∀ e ∈ es, e.tag = .typeExt k ∧ e.name = n) →
+    (∀ e ∈ es, (∃ k', e.tag = .typeExt k') ∧ e.name = n) →
     addDocument u es = { u with types := ts ++ [(es.foldl (adoptStep k) (t, u.errors)).1],
                                 errors := (es.foldl (adoptStep k) (t, u.errors)).2 } := by
   intro es
@@ -375,21 +380,19 @@ theorem addDocument_exts_defined (n : Name) (k : Kind) (ts : List TypeEntry) (ht
   | nil => intro u t hu _ _ _; simp [addDocument, ← hu]
   | cons e es ih =>
     intro u t hu htn htk hes
-    obtain ⟨he, hen⟩ := hes e (by simp)
+    obtain ⟨⟨k', he⟩, hen⟩ := hes e (by simp)
     simp only [addDocument, List.foldl_cons] at ih ⊢
-    rw [step_ext_defined n k u ts t e hu hts htn htk he hen]
+    rw [step_ext_defined n k u ts t e hu hts htn htk k' he hen]
     have := ih { u with types := ts ++ [(adoptStep k (t, u.errors) e).1], errors := (adoptStep k (t, u.errors) e).2 }
       (adoptStep k (t, u.errors) e).1 rfl (by rw [adoptStep_name]; exact htn) (by rw [adoptStep_kind]; exact htk)
       (fun x hx => hes x (by simp [hx]))
     rw [this]
 
-/-- the core of `ext_commutes`: extensions of the undefined type `n` (all of the kind of the coming
-    definition) interleaved with other definitions, then the definition of `n` = the other definitions,
+/-- the core of `ext_commutes`: extensions of the undefined type `n` (of any kind) interleaved with other definitions, then the definition of `n` = the other definitions,
     the definition of `n`, then the extensions, in their order -/
 theorem type_ext_commutes_state (n : Name) (k : Kind) (d : Def) (s : Builder) (l : List Def)
     (hfresh : findType s.types n = none) (ht : d.tag = .typeDef k) (hname : d.name = n)
-    (hnodef : ∀ x ∈ l, isDefOf n x = false)
-    (hkind : ∀ x ∈ l, isExtOf n x = true → x.tag = .typeExt k) :
+    (hnodef : ∀ x ∈ l, isDefOf n x = false) :
     addDocument s (l ++ [d]) =
       addDocument s (l.filter (fun x => !(isExtOf n x)) ++ d :: l.filter (isExtOf n)) := by
   let mid := l.filter (fun x => !(isExtOf n x))
@@ -418,14 +421,13 @@ theorem type_ext_commutes_state (n : Name) (k : Kind) (d : Def) (s : Builder) (l
   show _ = addDocument s (mid ++ d :: es)
   rw [hR, step_define n k d _ ht hname b3, b1, b2]
   -- apply the extensions one by one
-  have hes : ∀ e ∈ es, e.tag = .typeExt k ∧ e.name = n := by
+  have hes : ∀ e ∈ es, (∃ k', e.tag = .typeExt k') ∧ e.name = n := by
     intro e he
     have hm := List.mem_filter.mp he
-    refine ⟨hkind e hm.1 hm.2, ?_⟩
     have h2 := hm.2
     unfold isExtOf at h2
     cases hte : e.tag with
-    | typeExt k' => rw [hte] at h2; simpa using h2
+    | typeExt k' => rw [hte] at h2; exact ⟨⟨k', rfl⟩, by simpa using h2⟩
     | _ => rw [hte] at h2; cases h2
   have hts : findType (addDocument (strip n s) mid).types n = none := by
     rw [← b1]; simpa using b3
